@@ -68,39 +68,20 @@ def check_copy(before, after, anc):
     return True
 
 
-def run(tier, argv):
-    chk = Check("C12", tier)
-    cfgs = ["Resample_2.cfg", "Resample_3.cfg"] + (["Resample_4.cfg"] if tier == "quick" else ["Resample_4.cfg", "Resample_5.cfg"])
-    cases = []
-    for cfg in cfgs:
-        res = tlc.run("Resample", cfg, workers=1, timeout=3000)
-        chk.add_tlc(res, cfg)
-        cs = printed_values(res.stdout, '<<"CASE"') + printed_values(res.stdout, '<< "CASE"')
-        tlc.cleanup(res)
-        if cfg in ("Resample_4.cfg", "Resample_5.cfg"):
-            # categorical ancestor vectors are numerous: keep all systematic cases and a seeded sample of categorical ones
-            import random
-            rng = random.Random(chk.seed)
-            sysc = [c for c in cs if c[1] == "systematic"]
-            cat = [c for c in cs if c[1] == "categorical"]
-            if tier != "quick" and len(sysc) > 1200:
-                sysc = rng.sample(sysc, 1200)         # one process cannot run many thousands of cases (see DESIGN 8.4: mapped memory)
-            cs = sysc + rng.sample(cat, min(len(cat), 300 if tier == "quick" else 500))
-            chk.cov["exhaustive"] = False
-        cases += cs
+def _run_cases(job):
+    """replays a chunk of cases on the real resample(); returns [(case key, [mismatches], detail)]."""
+    cases, seed_ = job
     U, C = _Scripted(D.uniform, jnp.float32), _Scripted(D.categorical, jnp.int32)
     saved = (smc.uniform, smc.categorical)
     smc.uniform, smc.categorical = U, C
-    key = jax.random.key(chk.seed)
-    jitted = {}
+    key = jax.random.key(seed_)
+    results = []
     try:
         for (_, method, W, k, anc) in cases:
             W = list(W)
             n = len(W)
             wtot = sum(W)
             ck = f"resample|{method}|W={W}|" + (f"k={k}" if method == "systematic" else f"anc={list(anc)}")
-            chk.case(ck)
-            chk.validated(1)
             pc = make_particles(W)
             if method == "systematic":
                 U.q = [(2 * k + 1) / (2.0 * wtot)]
@@ -129,10 +110,47 @@ def run(tier, argv):
             except Exception as ex:
                 bad.append(f"raised {type(ex).__name__}: {str(ex).splitlines()[0][:160] if str(ex) else ''}")
             U.q, C.q, U.calls, C.calls = [], [], 0, 0
-            if bad:
-                chk.violation(ck, "; ".join(bad[:3]), {"W": W, "method": method, "k": k, "anc": list(anc)})
+            results.append((ck, bad, {"W": W, "method": method, "k": k, "anc": list(anc)}))
     finally:
         smc.uniform, smc.categorical = saved
+    return results
+
+
+def run(tier, argv):
+    chk = Check("C12", tier)
+    cfgs = ["Resample_2.cfg", "Resample_3.cfg"] + (["Resample_4.cfg"] if tier == "quick" else ["Resample_4.cfg", "Resample_5.cfg"])
+    cases = []
+    for cfg in cfgs:
+        res = tlc.run("Resample", cfg, workers=1, timeout=3000)
+        chk.add_tlc(res, cfg)
+        cs = printed_values(res.stdout, '<<"CASE"') + printed_values(res.stdout, '<< "CASE"')
+        tlc.cleanup(res)
+        if cfg in ("Resample_4.cfg", "Resample_5.cfg"):
+            # categorical ancestor vectors are numerous: keep all systematic cases and a seeded sample of categorical ones
+            import random
+            rng = random.Random(chk.seed)
+            sysc = [c for c in cs if c[1] == "systematic"]
+            cat = [c for c in cs if c[1] == "categorical"]
+            if tier != "quick" and len(sysc) > 1200:
+                sysc = rng.sample(sysc, 1200)         # one process cannot run many thousands of cases (see DESIGN 8.4: mapped memory)
+            cs = sysc + rng.sample(cat, min(len(cat), 300 if tier == "quick" else 500))
+            chk.cov["exhaustive"] = False
+        cases += cs
+    # the replay runs in short-lived worker processes (400 cases each): a process that stages and evaluates many thousands of
+    # functions eagerly eventually dies inside LLVM's JIT ("Unable to allocate section memory")
+    import multiprocessing as mp
+    chunks = [cases[i:i + 400] for i in range(0, len(cases), 400)]
+    if len(chunks) <= 1:
+        outs = [_run_cases((cases, chk.seed))]
+    else:
+        with mp.get_context("spawn").Pool(min(4, len(chunks)), maxtasksperchild=1) as pool:
+            outs = pool.map(_run_cases, [(ch, chk.seed) for ch in chunks], chunksize=1)
+    for res_ in outs:
+        for ck, bad, detail in res_:
+            chk.case(ck)
+            chk.validated(1)
+            if bad:
+                chk.violation(ck, "; ".join(bad[:3]), detail)
     c = cases[len(cases) // 3]
     chk.sample({"method": c[1], "weights": list(c[2]), "offset_interval": c[3], "ancestors": list(c[4])})
 
@@ -140,7 +158,8 @@ def run(tier, argv):
     import random
     rng = random.Random(chk.seed + 1)
     events = []
-    n_ev = 150 if tier == "quick" else 2000
+    n_ev = 150 if tier == "quick" else 800
+    jitted = {}
     counts = {}
     for i in range(n_ev):
         n = rng.choice([2, 3, 4, 5])
@@ -149,9 +168,10 @@ def run(tier, argv):
             W[rng.randrange(n)] = 1
         method = rng.choice(["systematic", "categorical"])
         pc = make_particles(W)
-        f = seed(lambda p: smc.resample(p, method))
         if i % 2:
-            f = jax.jit(f)
+            f = jitted.setdefault((method, n), jax.jit(seed(lambda p, m=method: smc.resample(p, m))))
+        else:
+            f = seed(lambda p: smc.resample(p, method))
         out = f(jax.random.key(chk.seed * 7919 + i), pc)
         anc = (np.asarray(out.traces.get_choices()["x"]) - 10.0).round().astype(int).tolist()
         events.append({"method": method, "W": W, "anc": anc, "copied": bool(check_copy(pc, out, anc)),
